@@ -158,8 +158,64 @@ class Table(Model):
         return self.vals[flat]
 
 
+class IntVec(Model):
+    """a small numpy integer vector (np.arange(n), 2 ** np.arange(n)): fixed-width int64 elements"""
+    kinds = ("ndarray",)
+
+    def __init__(self, vals):
+        self.vals = list(vals)
+
+    def __rpow__(self, base):
+        return IntVec([base ** v for v in self.vals])
+
+    def __mul__(self, k):
+        return IntVec([v * k for v in self.vals])
+
+    __rmul__ = __mul__
+
+    def __len__(self):
+        return len(self.vals)
+
+    def __getitem__(self, i):
+        return self.vals[i]
+
+
+class NpInt64(Model):
+    """the result of a numpy reduction over integers: a FIXED-WIDTH integer (products with large strides wrap around silently)"""
+    kinds = ("integer", "number", "generic")
+
+    def __init__(self, v):
+        self.v = v
+
+    def __eq__(self, o):
+        return False          # never the unbounded python int the key arithmetic needs
+
+    def __ne__(self, o):
+        return True
+
+    __hash__ = None
+
+    def __int__(self):
+        return int(self.v)        # int(np.int64(...)) IS an unbounded python int again
+
+    __index__ = __int__
+
+    def __repr__(self):
+        return "np.int64(%d)" % self.v
+
+
+def _np_dot(a, b):
+    av = [int(x) for x in (a.v if isinstance(a, BoolArr) else a.vals if isinstance(a, IntVec) else a)]
+    bv = [int(x) for x in (b.v if isinstance(b, BoolArr) else b.vals if isinstance(b, IntVec) else b)]
+    if len(av) != len(bv):
+        raise Raised("ValueError", None, "shapes not aligned")
+    return NpInt64(sum(x * y for x, y in zip(av, bv)))
+
+
 def np_small():
-    return {"numpy.zeros": lambda n, *a, **k: BoolArr(n if not isinstance(n, (list, tuple)) else n[0]), "numpy.zeros_like": lambda x, *a, **k: BoolArr(len(x)),
+    return {"numpy.arange": lambda *a, **k: IntVec(range(*a)) if all(isinstance(x, int) for x in a) else (_ for _ in ()).throw(Unsupported("np.arange%r" % (a,))),
+            "numpy.dot": _np_dot, "numpy.sum": lambda x, *a, **k: NpInt64(sum(int(v) for v in (x.v if isinstance(x, BoolArr) else x.vals))),
+            "numpy.zeros": lambda n, *a, **k: BoolArr(n if not isinstance(n, (list, tuple)) else n[0]), "numpy.zeros_like": lambda x, *a, **k: BoolArr(len(x)),
             "numpy.array": lambda x, *a, **k: Table(x) if isinstance(x, list) and len(x) > 16 else x, "numpy.asarray": lambda x, *a, **k: Table(x) if isinstance(x, list) and len(x) > 16 else x}
 
 
@@ -216,6 +272,9 @@ def check_hilbert3d_fold(run, tree, T):
                     bad = "cell (%d,%d,%d): raises %s" % (x, y, z, e)
                     break
                 want = automaton_key(T, x, y, z, L)
+                if isinstance(got, NpInt64):
+                    bad = "cell (%d,%d,%d) -> %r: a fixed-width integer (required an unbounded python int: the key is multiplied by (2**(levelmax+1)/maxdom)**3, beyond 64 bits for levelmax >= 21)" % (x, y, z, got)
+                    break
                 if got != want or isinstance(got, bool):
                     bad = "cell (%d,%d,%d) -> key %r, the automaton gives %d" % (x, y, z, got, want)
                     break
@@ -472,6 +531,27 @@ def check_hilbert_cpu_list_fold(run, tree):
                    "or with a level cap the key stride is computed from the wrong level")
         except ERR as e:
             run.unresolved(construct, fi.where(), "cannot fold: %s" % e)
+    # history: the SAME selection (same predicate objects, same box) asked again after the level cap changed: the box search is made again
+    # with the new cap (a remembered CPU list keyed on file and box alone would hand out the list of the other cap)
+    construct = "%s::hilbert_cpu_list[same selection, another level cap]" % HIL
+    try:
+        select = {("position_" + c): (lambda cs, c=c: Mask(A[c], B[c])) for c in "xyz"}
+        outs = []
+        for lmax in (2, 3, 1):
+            rec.clear()
+            stub_ret = ["CPUS for lmax %d" % lmax]
+            hooks["pkgfunc"][HIL + "::_get_cpu_list"] = lambda _r=stub_ret, **kw: (rec.append(kw), _r)[1]
+            out = ModelEval(tree, fi, {}, hooks).invoke(fi, [], {"meta": dict(meta, lmax=lmax), "scaling": Scaling(), "select": select, "infofile": "INFO"}, None)
+            outs.append((lmax, out, [kw.get("lmax") for kw in rec]))
+        hooks["pkgfunc"][HIL + "::_get_cpu_list"] = stub
+        bad = [(l, o, r) for l, o, r in outs if o != ["CPUS for lmax %d" % l] or r != [l]]
+        run.ob(construct, not bad, fi.where(), "; ".join("with lmax=%d: returns %r after box searches with lmax %s" % b for b in bad[:2]) or
+               "three calls with caps 2, 3, 1: each searches the box with its own cap and returns that result",
+               "a level-limited load after a deeper load of the same region reads the CPU files selected for the other depth (cells of the coarse level are missing)")
+    except (Raised, ProgramRaised) as e:
+        run.violated(construct, fi.where(), "raises %s" % e, "repeated selection")
+    except ERR as e:
+        run.unresolved(construct, fi.where(), "cannot fold: %s" % e)
     # early exits: all files (None)
     for label, m2, sel in (("another domain decomposition", dict(meta, **{"ordering type": "planar"}), {"position_x": lambda cs: Mask(A["x"], B["x"])}),
                            ("selection that is not a dict", meta, ["mesh"]), ("no positional predicate", meta, {"density": lambda a: Sym("u")}), ("selection None", meta, None)):
